@@ -89,6 +89,56 @@ func (f FA) Process() (int, error) {
 	return s % 1000003, nil
 }
 
+// FE reports an error for odd inputs (the value it returns with the error is still its output, as
+// nodes.Struct keeps both): loaders report errors this way, and their consumers must not
+// re-execute because of it.
+type FE struct {
+	C *counter
+	A nodes.NodeOutput[int]
+}
+
+func (f FE) Process() (int, error) {
+	f.C.n++
+	a := 0
+	if f.A != nil {
+		a = f.A.Value()
+	}
+	if a%2 != 0 {
+		return (3*a + 2) % 1000003, fmt.Errorf("odd input %d", a)
+	}
+	return (3*a + 2) % 1000003, nil
+}
+
+// FAA has two array inputs and two plain ones: more than a dozen dependencies over several fields.
+type FAA struct {
+	C    *counter
+	Xs   []nodes.NodeOutput[int]
+	Ys   []nodes.NodeOutput[int]
+	P, Q nodes.NodeOutput[int]
+}
+
+func (f FAA) Process() (int, error) {
+	f.C.n++
+	s := 11
+	for i, v := range f.Xs {
+		if v != nil {
+			s = (s*31 + (i+1)*v.Value()) % 1000003
+		}
+	}
+	for i, v := range f.Ys {
+		if v != nil {
+			s = (s*37 + (i+2)*v.Value()) % 1000003
+		}
+	}
+	if f.P != nil {
+		s += 1000 * f.P.Value()
+	}
+	if f.Q != nil {
+		s += 5000 * f.Q.Value()
+	}
+	return s % 1000003, nil
+}
+
 // ---------------------------------------------------------------- case
 
 type Op struct {
@@ -100,13 +150,13 @@ type Op struct {
 
 type Case struct{ Ops []Op }
 
-var kinds = []string{"addValue", "addParam", "addCliParam", "setMany", "addF2", "addF3", "addFA", "connect", "connect", "connect", "connect", "disconnect", "set", "set", "set", "read", "read", "read", "read", "state"}
+var kinds = []string{"addValue", "addParam", "addCliParam", "setMany", "addF2", "addF3", "addFA", "addFE", "addFAA", "connectMany", "connect", "connect", "connect", "connect", "disconnect", "set", "set", "set", "read", "read", "read", "read", "state"}
 
 func genCase(t *rapid.T) Case {
 	min := rapid.IntRange(5, 40).Draw(t, "minSteps")
 	// a prefix that builds a small graph, so that connects and reads have something to work on
 	prefix := rapid.SliceOfN(rapid.Custom(func(t *rapid.T) Op {
-		return Op{K: rapid.SampledFrom([]string{"addValue", "addParam", "addCliParam", "addF2", "addF3", "addFA", "connect", "connect"}).Draw(t, "k"), A: rapid.IntRange(0, 13).Draw(t, "a"), B: rapid.IntRange(0, 13).Draw(t, "b"), V: rapid.IntRange(0, 9).Draw(t, "v")}
+		return Op{K: rapid.SampledFrom([]string{"addValue", "addParam", "addCliParam", "addF2", "addF3", "addFA", "addFE", "addFAA", "connectMany", "connect", "connect"}).Draw(t, "k"), A: rapid.IntRange(0, 13).Draw(t, "a"), B: rapid.IntRange(0, 13).Draw(t, "b"), V: rapid.IntRange(0, 9).Draw(t, "v")}
 	}), 4, 16).Draw(t, "prefix")
 	body := rapid.SliceOfN(rapid.Custom(func(t *rapid.T) Op {
 		return Op{K: rapid.SampledFrom(kinds).Draw(t, "k"), A: rapid.IntRange(0, 13).Draw(t, "a"), B: rapid.IntRange(0, 13).Draw(t, "b"), V: rapid.IntRange(0, 9).Draw(t, "v")}
@@ -115,10 +165,11 @@ func genCase(t *rapid.T) Case {
 }
 
 type mnode struct {
-	kind     int   // 0 value, 1 param, 2 F2, 3 F3, 4 FA
+	kind     int   // 0 value, 1 param, 2 F2, 3 F3, 4 FA, 5 FE, 6 FAA
 	val      int   // sources
-	in       []int // scalar ports (-1 none): F2 [A,B]; F3 [P,Q,R]; FA [X]
-	arr      []int // FA array
+	in       []int // scalar ports (-1 none): F2 [A,B]; F3 [P,Q,R]; FA [X]; FE [A]; FAA [P,Q]
+	arr      []int // FA Values / FAA Xs
+	arr2     []int // FAA Ys
 	lastExec int64
 	changed  int64
 	sets     int
@@ -130,7 +181,8 @@ type mnode struct {
 	outRef   func() nodes.NodeOutputReference
 }
 
-var portNames = map[int][]string{2: {"A", "B"}, 3: {"P", "Q", "R"}, 4: {"X"}}
+var portNames = map[int][]string{2: {"A", "B"}, 3: {"P", "Q", "R"}, 4: {"X"}, 5: {"A"}, 6: {"P", "Q"}}
+var arrayNames = map[int][]string{4: {"Values"}, 6: {"Xs", "Ys"}}
 
 func runCase(c Case, o *vh.Obs) *vh.Failure {
 	var ns []*mnode
@@ -142,7 +194,7 @@ func runCase(c Case, o *vh.Obs) *vh.Failure {
 				d = append(d, v)
 			}
 		}
-		return append(d, ns[i].arr...)
+		return append(append(d, ns[i].arr...), ns[i].arr2...)
 	}
 	var eval func(i int) int
 	eval = func(i int) int {
@@ -160,6 +212,18 @@ func runCase(c Case, o *vh.Obs) *vh.Failure {
 			return (3*get(n.in[0]) + 5*get(n.in[1]) + 1) % 1000003
 		case 3:
 			return (2 + 7*get(n.in[0]) + 11*get(n.in[1]) + 13*get(n.in[2])) % 1000003
+		case 5:
+			return (3*get(n.in[0]) + 2) % 1000003
+		case 6:
+			s := 11
+			for k, d := range n.arr {
+				s = (s*31 + (k+1)*eval(d)) % 1000003
+			}
+			for k, d := range n.arr2 {
+				s = (s*37 + (k+2)*eval(d)) % 1000003
+			}
+			s += 1000*get(n.in[0]) + 5000*get(n.in[1])
+			return s % 1000003
 		default:
 			s := 7
 			for k, d := range n.arr {
@@ -221,7 +285,7 @@ func runCase(c Case, o *vh.Obs) *vh.Failure {
 			}
 		}
 		switch op.K {
-		case "addValue", "addParam", "addCliParam", "addF2", "addF3", "addFA":
+		case "addValue", "addParam", "addCliParam", "addF2", "addF3", "addFA", "addFE", "addFAA":
 			if len(ns) >= 14 {
 				continue
 			}
@@ -263,6 +327,17 @@ func runCase(c Case, o *vh.Obs) *vh.Failure {
 				n := &nodes.Struct[int, F3]{Data: F3{C: cn}}
 				ns = append(ns, &mnode{kind: 3, in: []int{-1, -1, -1}, node: n, cnt: cn, out: func() int { return n.Value() }, outRef: func() nodes.NodeOutputReference { return n.Out() }, changed: clock,
 					setInput: func(name string, r nodes.NodeOutputReference) { n.SetInput(name, nodes.Output{NodeOutput: r}) }})
+			case "addFE":
+				cn := &counter{}
+				n := &nodes.Struct[int, FE]{Data: FE{C: cn}}
+				ns = append(ns, &mnode{kind: 5, in: []int{-1}, node: n, cnt: cn, out: func() int { return n.Value() }, outRef: func() nodes.NodeOutputReference { return n.Out() }, changed: clock,
+					setInput: func(name string, r nodes.NodeOutputReference) { n.SetInput(name, nodes.Output{NodeOutput: r}) }})
+				o.Class("error-reporting-node")
+			case "addFAA":
+				cn := &counter{}
+				n := &nodes.Struct[int, FAA]{Data: FAA{C: cn}}
+				ns = append(ns, &mnode{kind: 6, in: []int{-1, -1}, node: n, cnt: cn, out: func() int { return n.Value() }, outRef: func() nodes.NodeOutputReference { return n.Out() }, changed: clock,
+					setInput: func(name string, r nodes.NodeOutputReference) { n.SetInput(name, nodes.Output{NodeOutput: r}) }})
 			default:
 				cn := &counter{}
 				n := &nodes.Struct[int, FA]{Data: FA{C: cn}}
@@ -283,9 +358,17 @@ func runCase(c Case, o *vh.Obs) *vh.Failure {
 			n.changed = clock
 			updates++
 			ports := portNames[n.kind]
-			if n.kind == 4 && op.V%4 != 0 {
-				n.setInput(fmt.Sprintf("Values.%d", len(n.arr)), ns[j].outRef())
-				n.arr = append(n.arr, j)
+			if arrs := arrayNames[n.kind]; len(arrs) > 0 && op.V%4 != 0 {
+				which := 0
+				if len(arrs) > 1 && op.V%4 == 3 {
+					which = 1
+				}
+				tgt := &n.arr
+				if which == 1 {
+					tgt = &n.arr2
+				}
+				n.setInput(fmt.Sprintf("%s.%d", arrs[which], len(*tgt)), ns[j].outRef())
+				*tgt = append(*tgt, j)
 				o.Class("array-connect")
 			} else {
 				p := op.V % len(ports)
@@ -295,20 +378,63 @@ func runCase(c Case, o *vh.Obs) *vh.Failure {
 				n.setInput(ports[p], ns[j].outRef())
 				n.in[p] = j
 			}
+		case "connectMany":
+			// many array entries at once: a node with more than a dozen dependencies
+			if len(procs) == 0 {
+				continue
+			}
+			var cands []int
+			for _, i := range procs {
+				if len(arrayNames[ns[i].kind]) > 0 && i > 0 {
+					cands = append(cands, i)
+				}
+			}
+			if len(cands) == 0 {
+				continue
+			}
+			i := cands[op.A%len(cands)]
+			n := ns[i]
+			arrs := arrayNames[n.kind]
+			count := []int{9, 11, 12, 13, 16, 40}[op.V%6]
+			clock++
+			for k := 0; k < count; k++ {
+				j := (op.B + k) % i
+				which := 0
+				if len(arrs) > 1 && k%3 == 2 {
+					which = 1
+				}
+				tgt := &n.arr
+				if which == 1 {
+					tgt = &n.arr2
+				}
+				n.setInput(fmt.Sprintf("%s.%d", arrs[which], len(*tgt)), ns[j].outRef())
+				*tgt = append(*tgt, j)
+			}
+			n.changed = clock
+			updates++
+			if len(deps(i)) > 12 {
+				o.Class("more-than-12-dependencies")
+			}
 		case "disconnect":
 			if len(procs) == 0 {
 				continue
 			}
 			n := ns[procs[op.A%len(procs)]]
-			if n.kind == 4 && len(n.arr) > 0 && op.V%4 != 0 {
-				k := op.B % len(n.arr)
-				clock++
-				n.setInput(fmt.Sprintf("Values.%d", k), nil)
-				n.arr = append(append([]int{}, n.arr[:k]...), n.arr[k+1:]...)
-				n.changed = clock
-				updates++
-				o.Class("array-remove")
-				continue
+			if arrs := arrayNames[n.kind]; len(arrs) > 0 && op.V%4 != 0 {
+				which, tgt := 0, &n.arr
+				if len(arrs) > 1 && op.V%4 == 3 {
+					which, tgt = 1, &n.arr2
+				}
+				if len(*tgt) > 0 {
+					k := op.B % len(*tgt)
+					clock++
+					n.setInput(fmt.Sprintf("%s.%d", arrs[which], k), nil)
+					*tgt = append(append([]int{}, (*tgt)[:k]...), (*tgt)[k+1:]...)
+					n.changed = clock
+					updates++
+					o.Class("array-remove")
+					continue
+				}
 			}
 			p := op.V % len(n.in)
 			if n.in[p] < 0 {
